@@ -388,6 +388,25 @@ def translate_signatures(repo):
     first = gt.body[0]
     if ast.unparse(ast.If(test=first.test, body=first.body, orelse=[])) != PIN_ANNOTATED:
         _fail(fname, gt, "annotated branch of _get_type_for_parameter changed")
+    # the qualname walk that finds the owning class of an unannotated self
+    walk = None
+    for n in ast.walk(gt):
+        if isinstance(n, ast.For) and ast.unparse(n.iter) == "class_names":
+            walk = n
+    if walk is None or not walk.body or not isinstance(walk.body[0], ast.Assign):
+        _fail(fname, gt, "the qualname walk of _get_type_for_parameter not found")
+    step = walk.body[0]
+    call = step.value
+    if not (ast.unparse(step.targets[0]) == "class_obj" and isinstance(call, ast.Call) and ast.unparse(call.func) == "getattr"
+            and len(call.args) == 3 and ast.unparse(call.args[1]) == "class_name" and ast.unparse(call.args[2]) == "None"):
+        _fail(fname, step, "unexpected step of the qualname walk")
+    on = ast.unparse(call.args[0])
+    if on not in ("class_obj", "module"):
+        _fail(fname, step, "the qualname walk looks the component up on an unknown object")
+    if [ast.unparse(x) for x in walk.body[1:]] != ["if class_obj is None:\n    break"]:
+        _fail(fname, walk, "the qualname walk no longer stops at the first missing component")
+    out.append("(* arg_spec.py _get_type_for_parameter: each qualname component is looked up on the object found in the previous step *)")
+    out.append(f"Definition self_walk_on_previous : bool := {'true' if on == 'class_obj' else 'false'}.")
     out.append("(* arg_spec.py _make_sig_parameter: (kind, make_everything_pos_only) *)")
     out.append("Definition rt_kind (k : pkind) (is_private : bool) : pkind * bool :=\n  if (match k with PosOrKw => true | _ => false end) && is_private then (PosOnly, true) else (k, false).")
     return out
